@@ -167,6 +167,23 @@ var scenarios = []schedrig.Scenario{
 		w.Con.Mute = false
 		w.Vx.Close()
 	}},
+	{Name: "colour-query-with-resize-report-ahead", Queue: 8, Hold: true, Caps: refterm.CapRGB | refterm.CapSync | refterm.CapOSC11 | refterm.CapSizeReports | refterm.CapInBandResize, Body: func(w *schedrig.World) {
+		// a goroutine asks for the background colour while the main goroutine draws; the user is resizing the
+		// window, so an in-band size report reaches the input ahead of the colour reply
+		vsched.AddEnv("terminal-replies", true, func() bool { return len(w.Con.Held) > 0 }, func() {
+			w.Con.Inject([]byte("\x1b[48;6;20;96;160t"))
+			w.Con.Release()
+		})
+		vsched.GoNamed("q", func() {
+			_ = w.Vx.QueryBackground()
+			w.Vx.PostEventBlocking(schedrig.UserEv{Src: "Q", N: 0})
+		})
+		w.Draw()
+		w.Until(func() bool { return w.Seen("Q0") })
+		w.Con.Hold = false
+		w.Con.Release()
+		w.Vx.Close()
+	}},
 	{Name: "clipboard", Queue: 8, Hold: true, Body: func(w *schedrig.World) {
 		vsched.AddEnv("terminal-replies", true, func() bool { return len(w.Con.Held) > 0 }, func() { w.Con.Release() })
 		ctx, cancel := vctx.WithTimeout(vctx.Background(), 20*time.Millisecond)
